@@ -34,6 +34,9 @@ AutF(G, cls) == { f \in Permutations(Verts(G.n)) : (\A e \in G.E : { f[x] : x \i
 RECURSIVE ReachF(_, _)
 ReachF(S, fs) == LET S2 == S \cup { f[x] : f \in fs, x \in S } IN IF S2 = S THEN S ELSE ReachF(S2, fs)
 OrbitsF(n, fs) == { ReachF({v}, fs) : v \in Verts(n) }
+(* closure of a set of permutations under composition with the generators, frontier by frontier *)
+RECURSIVE ClosureFr(_, _, _)
+ClosureFr(S, F, gens) == LET N == { [x \in DOMAIN g |-> g[s[x]]] : g \in gens, s \in F } \ S IN IF N = {} THEN S ELSE ClosureFr(S \cup N, N, gens)
 RECURSIVE ClosureF(_, _)
 ClosureF(S, gens) == LET S2 == S \cup { [x \in DOMAIN g |-> g[s[x]]] : g \in gens, s \in S } IN IF S2 = S THEN S ELSE ClosureF(S2, gens)
 RelabelS(G, p) == Relabel(G, p)
@@ -60,7 +63,10 @@ JudgeFull(e) ==
     ELSE IF \E k \in 1..Len(e.known) : ~IsPermS(e.known[k], n) \/ ~IsAutF(G, FnOfSeq(e.known[k]), e.classes) THEN "HARNESS: a 'known' automorphism is not one"
     ELSE IF \E k \in 1..Len(e.known) : \E v \in Verts(n) : ~\E O \in orbs : v \in O /\ e.known[k][v + 1] \in O THEN "an automorphism known by construction moves a vertex out of its returned orbit (orbits too fine)"
     ELSE IF e.reused /\ (e.perm # e.fresh.perm \/ e.orbits # e.fresh.orbits \/ e.gens # e.fresh.gens) THEN "the call on reused storage differs from the fresh call"
-    ELSE IF ~e.bf THEN (IF OrbitsF(n, gens) # orbs THEN "returned orbits are not the orbits of the returned generators" ELSE "")
+    ELSE IF ~e.bf THEN (IF OrbitsF(n, gens) # orbs THEN "returned orbits are not the orbits of the returned generators"
+                        ELSE IF e.order > 0 /\ Cardinality(ClosureFr({ [x \in Verts(n) |-> x] }, { [x \in Verts(n) |-> x] }, gens)) # e.order
+                             THEN "the returned generators do not generate a group of the order the construction predicts for Aut(g)"
+                        ELSE "")
     ELSE LET A == AutF(G, e.classes) IN
          IF orbs # OrbitsF(n, A) THEN "returned orbits are not the orbits of the automorphism group"
          ELSE IF Cardinality(ClosureF({ [x \in Verts(n) |-> x] }, gens)) # Cardinality(A) THEN "the returned generators do not generate the automorphism group"
@@ -128,9 +134,6 @@ StepWB(G, A, n, x, ev) ==
     ELSE x
 RECURSIVE RunWB(_, _, _, _, _, _)
 RunWB(G, A, n, x, evs, i) == IF i > Len(evs) THEN x ELSE RunWB(G, A, n, StepWB(G, A, n, x, evs[i]), evs, i + 1)
-(* closure of a set of permutations under composition with the generators, frontier by frontier *)
-RECURSIVE ClosureFr(_, _, _)
-ClosureFr(S, F, gens) == LET N == { [x \in DOMAIN g |-> g[s[x]]] : g \in gens, s \in F } \ S IN IF N = {} THEN S ELSE ClosureFr(S \cup N, N, gens)
 (* Aut(G): by brute force for small graphs; for the larger structured graphs of the harness (disjoint unions of cycles and their      *)
 (* complements) generated from the automorphisms known by construction, and accepted only if the group has the order the construction  *)
 (* predicts (e.order) and every generator is an automorphism.                                                                          *)
